@@ -4,11 +4,17 @@
 From TL Require Import Lib.Base Lib.GenTypes Model.SrpTypes Gen.SrpGen Model.SrpSpec Model.Srp Proofs.SrpBase.
 
 (* ------------------------------------------------------------------ methods *)
-Lemma py_countable_spec m : member_good Py m = true -> py_countable m = public_method m.
+Lemma py_countable_spec q m :
+  member_good Py m = true ->
+  q_py_setter_counted q = false \/ is_setter (m_kind m) = false ->
+  q_py_cached_property_counted q = false \/ is_cached (m_kind m) = false ->
+  py_countable q m = public_method m.
 Proof.
   destruct m as [k n]. unfold member_good, py_countable, public_method, py_countable_tests. cbn [m_kind m_name existsb py_test].
   generalize (starts_with "_" n). intros b.
-  destruct k; cbn; intros H; try discriminate; destruct b; reflexivity.
+  destruct k; cbn; intros H Hs Hc; try discriminate; try (destruct b; cbn; rewrite ?orb_true_r; reflexivity).
+  - (* MSetter *) destruct Hs as [-> | Hs]; [|discriminate]. destruct b; cbn; now rewrite ?andb_false_r.
+  - (* MCachedProp *) destruct Hc as [-> | Hc]; [|discriminate]. destruct b; cbn; now rewrite ?andb_false_r.
 Qed.
 
 Lemma rs_countable_spec m : member_good Rs m = true -> rs_countable m = public_method m.
@@ -39,6 +45,7 @@ Proof.
   - (* MPrivateKw *) destruct Hn as [-> | Hn]; [|discriminate]. destruct b; cbn; now rewrite ?andb_false_r.
   - (* MProtectedKw *) destruct Hn as [-> | Hn]; [|discriminate]. destruct b; cbn; now rewrite ?andb_false_r.
   - (* MHashPrivate *) destruct Hn as [-> | Hn]; [|discriminate]. reflexivity.
+  - (* MSetter *) destruct Ha as [-> | Ha]; [|discriminate]. destruct b; cbn; now rewrite ?andb_false_r.
 Qed.
 
 (* ------------------------------------------------------------------ lines *)
@@ -48,7 +55,8 @@ Lemma py_line_counts_spec q x :
   line_good Py x = true -> q_py_hash_in_string q = false \/ lkind_eqb (l_kind x) LStrHash = false ->
   py_line_counts q x = is_code x.
 Proof.
-  destruct x as [k t]. unfold line_good, py_line_counts, text_counts, is_code, py_comment_prefix. cbn [l_kind l_text comment_marker].
+  destruct x as [k raw]. unfold line_good, py_line_counts, text_counts, is_code, py_comment_prefix, l_text. cbn [l_kind l_raw comment_marker].
+  generalize (strip raw). intros t. intros Hg Hq. apply andb_prop in Hg. destruct Hg as [_ Hg]. revert Hg Hq.
   destruct k; cbn [lkind_eqb]; intros Hg Hq.
   - apply String.eqb_eq in Hg. subst t. fin.
   - rewrite Hg. fin.
@@ -66,7 +74,8 @@ Proof.
   assert (Hb : forall t, match l with Py => false | _ => starts_with block_marker t end = starts_with "/*" t) by (destruct l; [congruence | reflexivity..]).
   assert (Hc : forall t, match l with Py => true | _ => negb (starts_with block_marker t) end = negb (starts_with "/*" t)) by (destruct l; [congruence | reflexivity..]).
   assert (Hh : forall t, match l with Py => starts_with "#" t | _ => false end = false) by (destruct l; [congruence | reflexivity..]).
-  destruct x as [k t]. unfold line_good, text_counts, is_code. cbn [l_kind l_text]. rewrite Hm.
+  destruct x as [k raw]. unfold line_good, text_counts, is_code, l_text. cbn [l_kind l_raw]. rewrite Hm.
+  generalize (strip raw). intros t. intros Hg Hq. apply andb_prop in Hg. destruct Hg as [_ Hg]. revert Hg Hq.
   destruct k; cbn [lkind_eqb]; intros Hg Hq.
   - apply String.eqb_eq in Hg. subst t. fin.
   - rewrite Hg. fin.
